@@ -334,7 +334,10 @@ namespace AIToolbox::MDP {
         if constexpr (IsExperienceEigen<E> && requires { transitions_[a].row(s) = experience_.getVisitsTable(a).row(s).template cast<double>() * visitSumReciprocal; }) {
             transitions_[a].row(s) = experience_.getVisitsTable(a).row(s).template cast<double>() * visitSumReciprocal;
         } else {
-            // Normalize
+            // Drop whatever the row contained (the initial identity entry,
+            // or entries from before the Experience was reset), then
+            // normalize.
+            transitions_[a].row(s) *= 0.0;
             for ( size_t s1 = 0; s1 < S; ++s1 ) {
                 const auto visits = experience_.getVisits(s, a, s1);
                 if (visits > 0)
